@@ -344,7 +344,8 @@ class TLSRecordLayer(object):
                     if cert_req_with_comp_cert_ext:
                         break
 
-                if not cert_req_comp_cert_ext.algorithms:
+                if cert_req_with_comp_cert_ext and \
+                        not cert_req_comp_cert_ext.algorithms:
                     for result in self._sendError(
                             AlertDescription.decode_error,
                             "Empty algorithm list in compress_certificate "
